@@ -780,6 +780,24 @@ theorem src_k_clipping (n k : Nat) :
   · rename_i h; exact (min_eq_left (by exact_mod_cast h)).symm
   · rename_i h; exact (min_eq_right (by have := not_le.mp h; exact_mod_cast le_of_lt this)).symm
 
+/-- **set_points_invalidates_tree.** With the `points` setter as it is in the current source (it resets `_tree` on every path) and
+`kdtree` rebuilding from the current points when there is no tree: after `dp.points = B` — whatever tree was cached before, same
+shape or not — every KD-tree query (`recalculate_tangents`, lazy `vect` / `alpha`, `sampling_resolution`, `snap`) searches `B`, and the
+tree cached by that query is a tree of `B`.  A setter that keeps the tree would search the old cloud (second part). -/
+theorem set_points_invalidates_tree (s : DpState) (B : List P3) :
+    queriedCloud (setPoints pointsSetterResetsTree s B) = B ∧
+    (touchTree (setPoints pointsSetterResetsTree s B)).tree = some B ∧
+    pointsSetterStores = true ∧ kdtreeRebuildsWhenInvalid = true ∧ kdtreeBuiltFrom = "self.points" ∧
+    (∀ A, queriedCloud (setPoints false ⟨A, some A⟩ B) = A) := by
+  refine ⟨?_, ?_, by decide, by decide, by decide, fun A => rfl⟩
+  · have h : pointsSetterResetsTree = true := by decide
+    rw [h]; rfl
+  · have h : pointsSetterResetsTree = true := by decide
+    rw [h]; rfl
+
+example : queriedCloud (setPoints true ⟨[⟨0, 0, 0⟩], some [⟨0, 0, 0⟩]⟩ [⟨5, 5, 5⟩]) = [⟨5, 5, 5⟩] ∧
+    queriedCloud (setPoints false ⟨[⟨0, 0, 0⟩], some [⟨0, 0, 0⟩]⟩ [⟨5, 5, 5⟩]) = [⟨0, 0, 0⟩] := by decide +kernel
+
 /-- **src_mesh_vertices.** Marching-cubes vertices are placed at `(index − pad + voxel offset)·spacing` in the single-pass path and at
 `(index + voxel offset)·spacing` in the chunked path (`index` in voxels), i.e. on the grid `index·units` of the `VoxelNeuron`, to which
 `voxels2mesh` adds `vox.offset`; the spacing is the neuron's `units_xyz.magnitude`; the iso level is ½.  The tube mesh repeats every
